@@ -200,6 +200,10 @@ var hdrLineMenuFull = []string{
 	"P-Asserted-Identity: <sip:p@q>\r\n",
 	"P-Asserted-Identity: <sip:p@q>, <tel:+1>, n <sip:r@s>\r\n",
 	"Expires: 60\r\n",
+	"Expires: 4294967295\r\n",
+	"Expires:\r\n 0000000061\r\n",
+	"Content-Length: 16777216\r\n",
+	"l: 000000007\r\n",
 	"Via: SIP/2.0/UDP 1.2.3.4;branch=z9hG4bK77\r\n",
 	"v: SIP/2.0/TCP h;branch=1\r\n",
 	"Max-Forwards: 70\r\n",
@@ -209,6 +213,10 @@ var hdrLineMenuFull = []string{
 	"X-Gen: a\r\n b\r\n",
 	"X-E:\r\n",
 	"X-W  : v  \r\n",
+	"From : \"W\" <sip:w@s>;tag=ws\r\n",
+	"Content-Length\t: 2\r\n",
+	"m \t: <sip:x@y>;expires=3\r\n",
+	"CSeq : 5 ACK\r\n",
 	"Subject: lone\rY: cr\r\n",
 	"Z: lf\n",
 	// malformed
@@ -233,9 +241,12 @@ var hdrLineMenuQuick = []string{
 	"Contact: *\r\n",
 	"P-Asserted-Identity: <sip:p@q>, <tel:+1>, n <sip:r@s>\r\n",
 	"Expires: 60\r\n",
+	"Expires: 4294967295\r\n",
 	"v: SIP/2.0/TCP h;branch=1\r\n",
 	"X-Gen: a\r\n b\r\n",
 	"X-W  : v  \r\n",
+	"From : \"W\" <sip:w@s>;tag=ws\r\n",
+	"Content-Length\t: 2\r\n",
 	"Subject: lone\rY: cr\r\n",
 	"NoColon\r\n",
 	"To: \"unterminated\r\n",
